@@ -147,7 +147,7 @@ class expect(object):
     @staticmethod
     def post(scn, fv, pre, m):
         probs = []
-        if m is not None and "TimeoutSeconds" not in scn.machine:      # (the reference semantics has no execution time limit)
+        if m is not None and "TimeoutSeconds" not in scn.machine:      # (under a time limit the outcome depends on the schedule: C08 compares the canonical one)
             mv = c01.model_view(m)
             if mv["status"] in ("SUCCEEDED", "FAILED"):
                 if fv.get("status") != mv["status"]:
